@@ -7,6 +7,7 @@ import (
 	"path"
 	"path/filepath"
 	"reflect"
+	"strings"
 	"sync"
 	"text/template"
 )
@@ -132,10 +133,13 @@ func DevelopmentMode(mode bool) Option {
 // in the set's templates cache, and if it can't find the template it will try to load the same paths via
 // the loader, and, if parsed successfully, cache the template (unless running in development mode).
 func (s *Set) GetTemplate(templatePath string) (t *Template, err error) {
-	return s.getSiblingTemplate(templatePath, "/", true)
+	return s.getSiblingTemplate(templatePath, "/", true, nil)
 }
 
-func (s *Set) getSiblingTemplate(templatePath, siblingPath string, cacheAfterParsing bool) (t *Template, err error) {
+// loading lists the templates whose extends/import clauses led to this lookup (outermost
+// first), so that a template that extends or imports itself is reported instead of
+// being loaded again and again.
+func (s *Set) getSiblingTemplate(templatePath, siblingPath string, cacheAfterParsing bool, loading []string) (t *Template, err error) {
 	templatePath = filepath.ToSlash(templatePath)
 	siblingPath = filepath.ToSlash(siblingPath)
 	if !path.IsAbs(templatePath) {
@@ -144,11 +148,11 @@ func (s *Set) getSiblingTemplate(templatePath, siblingPath string, cacheAfterPar
 	} else {
 		templatePath = path.Clean(templatePath)
 	}
-	return s.getTemplate(templatePath, cacheAfterParsing)
+	return s.getTemplate(templatePath, cacheAfterParsing, loading)
 }
 
 // same as GetTemplate, but doesn't cache a template when found through the loader.
-func (s *Set) getTemplate(templatePath string, cacheAfterParsing bool) (t *Template, err error) {
+func (s *Set) getTemplate(templatePath string, cacheAfterParsing bool, loading []string) (t *Template, err error) {
 	if !s.developmentMode {
 		t, found := s.getTemplateFromCache(templatePath)
 		if found {
@@ -156,7 +160,7 @@ func (s *Set) getTemplate(templatePath string, cacheAfterParsing bool) (t *Templ
 		}
 	}
 
-	t, err = s.getTemplateFromLoader(templatePath, cacheAfterParsing)
+	t, err = s.getTemplateFromLoader(templatePath, cacheAfterParsing, loading)
 	if err == nil && cacheAfterParsing && !s.developmentMode {
 		s.cache.Put(templatePath, t)
 	}
@@ -174,18 +178,23 @@ func (s *Set) getTemplateFromCache(templatePath string) (t *Template, ok bool) {
 	return nil, false
 }
 
-func (s *Set) getTemplateFromLoader(templatePath string, cacheAfterParsing bool) (t *Template, err error) {
+func (s *Set) getTemplateFromLoader(templatePath string, cacheAfterParsing bool, loading []string) (t *Template, err error) {
 	// check path with all possible extensions in loader
 	for _, extension := range s.extensions {
 		canonicalPath := templatePath + extension
 		if found := s.loader.Exists(canonicalPath); found {
-			return s.loadFromFile(canonicalPath, cacheAfterParsing)
+			return s.loadFromFile(canonicalPath, cacheAfterParsing, loading)
 		}
 	}
 	return nil, fmt.Errorf("template %s could not be found", templatePath)
 }
 
-func (s *Set) loadFromFile(templatePath string, cacheAfterParsing bool) (template *Template, err error) {
+func (s *Set) loadFromFile(templatePath string, cacheAfterParsing bool, loading []string) (template *Template, err error) {
+	for _, l := range loading {
+		if l == templatePath {
+			return nil, fmt.Errorf("template %s extends or imports itself (%s -> %s)", templatePath, strings.Join(loading, " -> "), templatePath)
+		}
+	}
 	f, err := s.loader.Open(templatePath)
 	if err != nil {
 		return nil, err
@@ -195,7 +204,7 @@ func (s *Set) loadFromFile(templatePath string, cacheAfterParsing bool) (templat
 	if err != nil {
 		return nil, err
 	}
-	return s.parse(templatePath, string(content), cacheAfterParsing)
+	return s.parseLoading(templatePath, string(content), cacheAfterParsing, loading)
 }
 
 // Parse parses `contents` as if it were located at `templatePath`, but won't put the result into the cache.
